@@ -23,6 +23,9 @@ R7.4 each named object is created once: a creating call must not sit in a
 R7.5 relocation: the bare file name is stored for local basins, location
      strings pass ``store_basin(verify=False)`` unchanged and
      ``basins_retrieve`` also tries the location relative to the referrer.
+R7.7 memo purity: what the classes of feat_basin.py store on ``self`` outside
+     ``__init__`` (lazy caches) is not computed from the arguments of the call
+     that fills it (except the key it is stored under).
 R7.6 feature wrappers: the first axis reported by ``shape`` / ``size``
      derives from the same source as ``__len__``; a wrapper that re-indexes
      the first axis must not forward ``shape`` / ``size`` to the wrapped
@@ -37,7 +40,8 @@ from ..core import (AnalysisError, call_name, const_str, find_calls, is_name,
                     is_self_attr, kwarg, last_attr, names_in, short, txt,
                     walk)
 from ..normalize import expand_locals
-from ..lib_C14 import (COPIER, CORE, EXPORT, FB, WRITER, base_names, cfg_ids,
+from ..lib_C14 import (COPIER, CORE, EXPORT, FB, WRITER, Mini, Model, USet,
+                       Unknown, Unordered, base_names, cfg_ids,
                        classes_in, edge_guarded, enclosing_conditions,
                        fact_guard, fold, method, single_assign, stmt_of)
 
@@ -85,6 +89,7 @@ def r71(ctx, repo):
     gi = repo.func(CORE, "RTDCBase.__getitem__")
     feat = gi.args.args[1].arg
     stages = []        # (token, node)
+    type_seq = []      # ("one", basin_type expr) | ("many", iterable expr)
 
     def ret_of(stmts):
         return [s for s in stmts if isinstance(s, ast.Return)]
@@ -128,14 +133,14 @@ def r71(ctx, repo):
                     continue
                 if fn == "_get_basin_feature_data":
                     bt = kwarg(st.value, "basin_type", 1)
-                    pending = (st.targets[0].id,
-                               f"basin:{txt(bt) if bt is not None else None}")
+                    type_seq.append(("one", bt))
+                    pending = (st.targets[0].id, "basin:one")
                     continue
             if isinstance(st, ast.For) and find_calls(
                     st, attr="_get_basin_feature_data"):
                 c = find_calls(st, attr="_get_basin_feature_data")[0]
                 bt = kwarg(c, "basin_type", 1)
-                if not (isinstance(st.iter, (ast.List, ast.Tuple)) and is_name(
+                if not (isinstance(st.target, ast.Name) and is_name(
                         bt, st.target.id) and isinstance(
                         stmt_of(c), ast.Assign)):
                     raise AnalysisError("__getitem__: basin loop idiom not "
@@ -149,8 +154,8 @@ def r71(ctx, repo):
                 if not rs:
                     raise AnalysisError("__getitem__: basin loop does not "
                                         "return the data")
-                for e in st.iter.elts:
-                    stages.append((f"basin:{txt(e)}", st))
+                type_seq.append(("many", st.iter))
+                stages.append(("basin:loop", st))
                 continue
             if isinstance(st, ast.Raise):
                 stages.append(("raise", st))
@@ -181,11 +186,57 @@ def r71(ctx, repo):
     ctx.ob("R7.1", ok, "cached ancillary features precede basins" if ok else
            "cached ancillary data is not consulted before the basins",
            node=node0, label="cached ancillary before basins")
-    order = [toks[i].split(":", 1)[1] for i in basin_pos]
-    ok = order == ["'internal'", "'file'", "None"]
-    ctx.ob("R7.1", ok, "basins are asked in the order internal, file, any"
-           if ok else f"basin order is {order}, documented order is "
-           f"internal, file, any", node=node0, label="basin type order")
+    # precedence internal > file > rest, decided by evaluating the sequence
+    # of requested types on every set of basin types a dataset can have
+    tie_ok = _priority_sort_orders_types(repo)
+    TYPES = ("internal", "file", "remote")
+    bad = None
+    n_sets = 0
+    for mask in range(8):
+        present = [t for i, t in enumerate(TYPES) if mask >> i & 1]
+        env = {"self.basins": [Model(basin_type=t) for t in present],
+               "self._basins": [Model(basin_type=t) for t in present]}
+        seq = []
+        try:
+            for kind, e in type_seq:
+                if kind == "one":
+                    seq.append(None if e is None else Mini(env).ev(e))
+                else:
+                    v = Mini(env).ev(e)
+                    if isinstance(v, USet):
+                        raise Unordered(txt(e))
+                    if not isinstance(v, (list, tuple)):
+                        raise Unknown(txt(e))
+                    seq += list(v)
+        except Unordered as u:
+            bad = bad or (present, f"the order of `{u}` is undefined")
+            continue
+        except Unknown as u:
+            raise AnalysisError(f"__getitem__: cannot evaluate the requested "
+                                f"basin types (`{u}`)")
+        n_sets += 1
+
+        def first(t):
+            hit = [i for i, x in enumerate(seq) if x is None or x == t]
+            return hit[0] if hit else None
+        for t in present:
+            if first(t) is None:
+                bad = bad or (present, f"{t} basins are never asked "
+                              f"(requested types {seq})")
+        for a, b in (("internal", "file"), ("internal", "remote"),
+                     ("file", "remote")):
+            if a in present and b in present and first(a) is not None \
+                    and first(b) is not None:
+                fa, fb = first(a), first(b)
+                if fa > fb or (fa == fb and not (seq[fa] is None and tie_ok)):
+                    bad = bad or (present, f"{b} basins are asked before "
+                                  f"{a} basins (requested types {seq})")
+    ctx.ob("R7.1", bad is None,
+           "basins are asked in the order internal, file, rest for every "
+           "combination of basin types (8 sets)" if bad is None else
+           f"with basins of type {bad[0]}: {bad[1]} – data the file keeps "
+           f"itself (internal basin) or a local file can be shadowed by a "
+           f"basin of lower precedence", node=node0, label="basin type order")
     ok = pos("anc-compute") is not None and pos("anc-compute") > basin_pos[-1]
     ctx.ob("R7.1", ok, "ancillary features are computed only when no basin "
            "delivers" if ok else "ancillary features are computed before "
@@ -221,6 +272,28 @@ def r71(ctx, repo):
            "another type (12 cases)" if not bad else
            f"type filter wrong for (requested, basin) = {bad[0][:2]}",
            node=skip[0], label="basin type filter")
+
+
+def _priority_sort_orders_types(repo):
+    """basins_retrieve sorts the definitions with basin_priority_sorted_key
+    and that key orders internal < file < remote (so that a request without
+    type preference walks the basins in precedence order)"""
+    br = repo.func(CORE, "RTDCBase.basins_retrieve")
+    srt = [c for c in find_calls(br, name="sorted")
+           if "basin_priority_sorted_key" in txt(c)
+           and "basins_get_dicts" in txt(c)]
+    key = repo.func(FB, "basin_priority_sorted_key", missing_ok=True)
+    if not srt or key is None:
+        return False
+    for d in [n for n in walk(key) if isinstance(n, ast.Dict)]:
+        tab = {const_str(k): const_str(v) for k, v in zip(d.keys, d.values)}
+        if {"internal", "file", "remote"} <= set(tab) and all(
+                isinstance(v, str) for v in tab.values()):
+            rets = [r for r in walk(key) if isinstance(r, ast.Return)]
+            lead = bool(rets) and all(
+                isinstance(r.value, ast.BinOp) for r in rets)
+            return lead and tab["internal"] < tab["file"] < tab["remote"]
+    return False
 
 
 # ----------------------------------------------------------------------
@@ -1103,6 +1176,76 @@ def single_assign_in(body, name):
 
 
 # ----------------------------------------------------------------------
+def r77(ctx, repo):
+    """what a lazy accessor memoises must not depend on per-call arguments
+    (other than the key it is stored under)"""
+    for cname, cls in classes_in(repo, FB):
+        for m in [st for st in cls.body if isinstance(st, ast.FunctionDef)]:
+            if m.name == "__init__":
+                continue
+            a = m.args
+            params = {x.arg for x in a.args[1:] + a.kwonlyargs
+                      + a.posonlyargs}
+            params |= {x.arg for x in (a.vararg, a.kwarg) if x is not None}
+            # names computed from the arguments
+            tainted = {p: {p} for p in params}
+            changed = True
+            while changed:
+                changed = False
+                for n in walk(m):
+                    tg = None
+                    if isinstance(n, ast.Assign):
+                        tg, val = n.targets, n.value
+                    elif isinstance(n, ast.AugAssign):
+                        tg, val = [n.target], n.value
+                    elif isinstance(n, ast.For):
+                        tg, val = [n.target], n.iter
+                    if tg is None:
+                        continue
+                    src = set()
+                    for x in names_in(val):
+                        src |= tainted.get(x, set())
+                    if not src:
+                        continue
+                    for t in tg:
+                        for x in ast.walk(t):
+                            if isinstance(x, ast.Name) and isinstance(
+                                    x.ctx, ast.Store) and not src <= \
+                                    tainted.get(x.id, set()):
+                                tainted[x.id] = tainted.get(
+                                    x.id, set()) | src
+                                changed = True
+            for n in walk(m):
+                if not isinstance(n, ast.Assign):
+                    continue
+                for t in n.targets:
+                    key = set()
+                    if isinstance(t, ast.Subscript) and is_self_attr(
+                            t.value):
+                        for x in names_in(t.slice):
+                            key |= tainted.get(x, set())
+                        attr = t.value.attr
+                    elif is_self_attr(t):
+                        attr = t.attr
+                    else:
+                        continue
+                    dep = set()
+                    for x in names_in(n.value):
+                        dep |= tainted.get(x, set())
+                    dep -= key
+                    ok = not dep
+                    ctx.ob("R7.7", ok,
+                           f"self.{attr} is stored independently of the "
+                           f"call's arguments" if ok else
+                           f"`{short(n, 60)}` memoises a value computed "
+                           f"from the argument(s) {sorted(dep)} of this "
+                           f"call: later calls with other arguments get the "
+                           f"first caller's result (e.g. data rounded to the "
+                           f"first requested dtype)", node=n,
+                           label=f"memo self.{attr} = {short(n.value, 40)}")
+
+
+# ----------------------------------------------------------------------
 def _len_info(cls, index):
     """(function defining __len__, set of len-argument texts, pure?)"""
     c = cls
@@ -1311,12 +1454,15 @@ def run(ctx):
              minimum=5)
     ctx.rule("R7.6", "first axis of shape/size of feature wrappers agrees "
              "with __len__", minimum=18)
+    ctx.rule("R7.7", "memoised values of the basin proxies do not depend "
+             "on per-call arguments", minimum=9)
     r71(ctx, repo)
     r72(ctx, repo)
     r73(ctx, repo)
     r74(ctx, repo)
     r75(ctx, repo)
     r76(ctx, repo)
+    r77(ctx, repo)
     _unique_keys(ctx)
 
 
@@ -1477,6 +1623,30 @@ MUTANTS = [
       '        if False:\n            raise ValueError(\n'
       "                \"'internal' basins"), "R7.5"),
     # ---- R7.6
+    # ---- R7.1 (seeded C07_6) / R7.7 (seeded extra)
+    ("basin types asked in alphabetical order", CORE,
+     ('for basin_type in ["internal", "file", None]:',
+      "for basin_type in sorted(set(bn.basin_type for bn in self.basins)):"),
+     "R7.1"),
+    ("basin types asked in set order", CORE,
+     ('for basin_type in ["internal", "file", None]:',
+      "for basin_type in list({bn.basin_type for bn in self.basins}):"),
+     "R7.1"),
+    ("remote basins never asked", CORE,
+     ('for basin_type in ["internal", "file", None]:',
+      'for basin_type in ["internal", "file"]:'), "R7.1"),
+    ("scalar cache filled with the first caller's dtype", FB,
+     ("            self._cache = self.feat_obj[:][self.basinmap]\n",
+      "            self._cache = np.asarray(self.feat_obj[:][self.basinmap],\n"
+      "                                     dtype=dtype)\n"), "R7.7"),
+    ("scalar cache filled through the caller's kwargs", FB,
+     ("            self._cache = self.feat_obj[:][self.basinmap]\n",
+      "            opts = dict(kwargs)\n"
+      "            self._cache = np.array(self.feat_obj[:][self.basinmap],\n"
+      "                                   **opts)\n"), "R7.7"),
+    ("wrapper cache keyed by a constant", FB,
+     ("            self._features[feat] = feat_obj\n",
+      "            self._features[\"last\"] = feat_obj\n"), "R7.7"),
     ("ChildNDArray.shape forwarded to the parent", HIEV,
      ("        return tuple([len(self)] + list(hp[self.feat][0].shape))\n",
       "        return hp[self.feat].shape\n"), "R7.6"),
@@ -1526,6 +1696,27 @@ TWINS = [
       'if np.array_equal(self.h5file["events"][bm_cand], basin_map):')),
     ("copier loop variable renamed", COPIER,
      lambda s: s.replace("l_key", "log_key")),
+    ("basin types from a tuple", CORE,
+     ('for basin_type in ["internal", "file", None]:',
+      'for basin_type in ("internal", "file", "remote", None):')),
+    ("basin types ranked by precedence", CORE,
+     ('for basin_type in ["internal", "file", None]:',
+      'for basin_type in sorted({bn.basin_type for bn in self.basins},\n'
+      '                                 key=["internal", "file", '
+      '"remote"].index):')),
+    ("single request without type preference", CORE,
+     ('for basin_type in ["internal", "file", None]:',
+      "for basin_type in [None]:")),
+    ("scalar cache restructured, dtype applied on the way out", FB,
+     ("        if self._cache is None and self.is_scalar:\n"
+      "            self._cache = self.feat_obj[:][self.basinmap]\n"
+      "        else:\n",
+      "        if self.is_scalar:\n"
+      "            if self._cache is None:\n"
+      "                self._cache = np.asarray(\n"
+      "                    self.feat_obj[:][self.basinmap])\n"
+      "            return np.array(self._cache, dtype=dtype, copy=copy)\n"
+      "        else:\n")),
     ("type filter through a local, operands mirrored", CORE,
      ("                if basin_type is not None and basin_type != bn.basin_type:\n",
       "                type_requested = basin_type is not None\n"
